@@ -74,7 +74,7 @@ package executor
 // C03: no error list  ==>  every parameter mutator and every context mutator returned nil, the document was parsed
 // from the (possibly mutated) query text and validated, the operation was found by name, variables coerced.
 // An error list is never empty. (Refines the interface contract in graphql/verif_contracts.go.)
-//@ func (*Executor).CreateOperationContext [C03,C09]
+//@ func (*Executor).CreateOperationContext [C03,C09,C02]
 //@   requires e != nil && params != nil
 //@   safe
 //@   ghost rejected = false
@@ -94,6 +94,7 @@ package executor
 //@   ensures res1 == nil ==> res0.Doc != nil && isValidated(res0.Doc) && res0.Operation != nil && res0.Operation == forName(res0.Doc.Operations, res0.OperationName)
 //@   ensures res1 != nil ==> len(res1) > 0
 //@   ensures calls(parseQuery) <= 1
+//@   ensures res1 == nil ==> calls(VariableValues) == 1 && calls(parseQuery) == 1
 
 // ---------------------------------------------------------------- dispatch
 //@ func (*Executor).DispatchOperation [C03]
